@@ -367,6 +367,24 @@ def c_plain_args(ctx, args):
             c.forward(s2)
             return [int(v) for v in c.measure_result], NP.oST(s2)
         calls = [(arr, (lambda: run_meas(arr))), (list(region), (lambda: run_meas(list(region))))]
+    elif api == 'backward_record':
+        st0 = NP.STATE(gen.rtableau(rng, ctx.model, n, r=0))
+        c = pc.circuit.Circuit(n)
+        c.take(NP.mk_gate(gen.rgate(rng, ctx.model, n, kinds=('gen', 'named'))))
+        c.measure(*region)
+        c.take(NP.mk_gate(gen.rgate(rng, ctx.model, n, kinds=('gen', 'named'))))
+        NP.seed_numba(seed)
+        s1 = st0.copy()
+        c.forward(s1)
+        rec = [int(v) for v in c.measure_result]
+        own = list(rec)
+
+        def use():
+            c.backward(s1.copy(), measure_result=rec)
+            NP.seed_numba(seed + 1)
+            c.forward(st0.copy())                 # the circuit goes on being used: its own record grows, the caller's list must not
+            return list(rec) == own
+        calls = [(rec, use)]
     elif api == 'describe':
         rows = gen.rplist(rng, n, 3)
         code = lambda g: [int(a + 2 * b) if (a, b) != (1, 1) else 2 for a, b in zip(g[0::2], g[1::2])]
@@ -383,6 +401,8 @@ def c_plain_args(ctx, args):
             return {'kind': 'oracle', 'where': 'np:%s with a %s argument raised %s' % (api, before[0] + ':' + str(before[1])[:12], type(e).__name__), 'observed': str(e)[:150], 'expected': 'a value', 'tags': ['plain_args', api]}
         if _raw_snap(a) != before:
             return {'kind': 'oracle', 'where': 'np:%s modified the plain argument it was given' % api, 'observed': str(_raw_snap(a))[:300], 'expected': str(before)[:300], 'tags': ['plain_args', api]}
+    if api == 'backward_record' and vals != [True]:
+        return {'kind': 'oracle', 'where': 'np:the record list given to Circuit.backward changed when the circuit was used again', 'observed': str(calls[0][0]), 'expected': 'the caller\'s list as it was', 'tags': ['plain_args', api]}
     if api in ('entropy', 'mask', 'get_prob', 'gate', 'measure_layer') and any(v != vals[0] for v in vals):
         return {'kind': 'oracle', 'where': 'np:%s depends on the form its argument is given in' % api, 'observed': str(vals)[:400], 'expected': 'equal values', 'tags': ['plain_args', api]}
     return None
@@ -699,7 +719,7 @@ def run(ctx):
             for _ in range(max(8, int(10 * B))):
                 do(ctx, 'query', [kind, m, rng.randint(1, 4), rng.randrange(10 ** 6)], nontrivial=('q', kind, m, ctx.res.evaluations))
     for it in range(int(80 * B)):
-        api = ['entropy', 'mask', 'get_prob', 'getitem', 'rotate_mask', 'transform_mask', 'gate', 'measure_layer', 'describe'][it % 9]
+        api = ['entropy', 'mask', 'get_prob', 'getitem', 'rotate_mask', 'transform_mask', 'gate', 'measure_layer', 'describe', 'backward_record'][it % 10]
         do(ctx, 'plain_args', [api, rng.randint(2, 5), rng.randrange(10 ** 6)], nontrivial=('pa', api, it))
     for it in range(int(60 * B)):
         be = ['np', 'torch'][it % 2]
